@@ -183,10 +183,120 @@ type exec struct {
 	s       *Store
 	db      string
 	touched []string
+	// srcs describes the sources of the joined (virtual) table of the SELECT in progress; nil for a single table
+	srcs []joinSrc
+}
+
+// joinSrc is one table of a join inside the virtual table: its columns are Cols[off : off+n].
+type joinSrc struct {
+	alias, name string
+	off, n      int
 }
 
 func unsupported(what string, a ...interface{}) error {
 	return fmt.Errorf("unsupported: "+what, a...)
+}
+
+// fromClause resolves the FROM clause of a SELECT: a single table, or inner / left / comma joins of tables,
+// which are materialised into a virtual table whose columns are the sources' columns side by side.
+func (e *exec) fromClause(refs *ast.TableRefsClause) (*Table, string, error) {
+	e.srcs = nil
+	if refs == nil || refs.TableRefs == nil {
+		return nil, "", unsupported("no table")
+	}
+	if refs.TableRefs.Right == nil {
+		if _, ok := refs.TableRefs.Left.(*ast.Join); !ok {
+			return e.table(refs)
+		}
+	}
+	vt, srcs, err := e.join(refs.TableRefs)
+	if err != nil {
+		return nil, "", err
+	}
+	e.srcs = srcs
+	return vt, "", nil
+}
+
+func (e *exec) join(j *ast.Join) (*Table, []joinSrc, error) {
+	side := func(n ast.ResultSetNode) (*Table, []joinSrc, error) {
+		switch x := n.(type) {
+		case *ast.Join:
+			if x.Right == nil {
+				return e.joinSide(x.Left)
+			}
+			return e.join(x)
+		default:
+			return e.joinSide(n)
+		}
+	}
+	lt, ls, err := side(j.Left)
+	if err != nil {
+		return nil, nil, err
+	}
+	if j.Right == nil {
+		return lt, ls, nil
+	}
+	rt, rs, err := side(j.Right)
+	if err != nil {
+		return nil, nil, err
+	}
+	if j.Using != nil || j.NaturalJoin || j.StraightJoin {
+		return nil, nil, unsupported("using / natural / straight join")
+	}
+	vt := &Table{Cols: append(append([]string{}, lt.Cols...), rt.Cols...)}
+	srcs := append([]joinSrc{}, ls...)
+	for _, x := range rs {
+		x.off += len(lt.Cols)
+		srcs = append(srcs, x)
+	}
+	saved := e.srcs
+	e.srcs = srcs
+	defer func() { e.srcs = saved }()
+	nulls := make([]Value, len(rt.Cols))
+	for i := range nulls {
+		nulls[i] = Null()
+	}
+	for _, l := range lt.Rows {
+		matched := false
+		for _, r := range rt.Rows {
+			row := append(append([]Value{}, l...), r...)
+			ok := 1
+			if j.On != nil {
+				var err error
+				ok, err = e.cond(j.On.Expr, &rowCtx{vt, "", row})
+				if err != nil {
+					return nil, nil, err
+				}
+			}
+			if ok == 1 {
+				matched = true
+				vt.Rows = append(vt.Rows, row)
+			}
+		}
+		if !matched && j.Tp == ast.LeftJoin {
+			vt.Rows = append(vt.Rows, append(append([]Value{}, l...), nulls...))
+		}
+	}
+	if j.Tp == ast.RightJoin {
+		return nil, nil, unsupported("right join")
+	}
+	return vt, srcs, nil
+}
+
+func (e *exec) joinSide(n ast.ResultSetNode) (*Table, []joinSrc, error) {
+	src, ok := n.(*ast.TableSource)
+	if !ok {
+		return nil, nil, unsupported("table reference %T", n)
+	}
+	tn, ok := src.Source.(*ast.TableName)
+	if !ok {
+		return nil, nil, unsupported("derived table")
+	}
+	t, alias, err := e.tableName(tn, src.AsName.O)
+	if err != nil {
+		return nil, nil, err
+	}
+	return t, []joinSrc{{alias: alias, name: t.Name, off: 0, n: len(t.Cols)}}, nil
 }
 
 // table resolves the single table of a FROM / UPDATE / DELETE clause and its alias.
@@ -489,6 +599,20 @@ func (e *exec) column(c *ast.ColumnName, rc *rowCtx) (Value, error) {
 	if rc == nil {
 		return Value{}, unsupported("column without a row")
 	}
+	if e.srcs != nil && rc.t.Name == "" {
+		// a joined row: resolve through the sources
+		for _, src := range e.srcs {
+			if c.Table.O != "" && !strings.EqualFold(c.Table.O, src.alias) && !strings.EqualFold(c.Table.O, src.name) {
+				continue
+			}
+			for i := src.off; i < src.off+src.n; i++ {
+				if strings.EqualFold(rc.t.Cols[i], c.Name.O) {
+					return rc.row[i], nil
+				}
+			}
+		}
+		return Value{}, fmt.Errorf("unknown column %q.%q", c.Table.O, c.Name.O)
+	}
 	if c.Table.O != "" && !strings.EqualFold(c.Table.O, rc.alias) && !strings.EqualFold(c.Table.O, rc.t.Name) {
 		return Value{}, fmt.Errorf("unknown table %q in column reference", c.Table.O)
 	}
@@ -520,10 +644,11 @@ func (e *exec) sel(n *ast.SelectStmt) (*Result, error) {
 	if n.Having != nil {
 		return nil, unsupported("having")
 	}
-	t, alias, err := e.table(n.From)
+	t, alias, err := e.fromClause(n.From)
 	if err != nil {
 		return nil, err
 	}
+	defer func() { e.srcs = nil }()
 	// output columns
 	var outs []outCol
 	hasAgg := false
